@@ -218,6 +218,13 @@ def _decode_guards(fn) -> dict:
                 rs = [s for s in n.body if isinstance(s, ast.Raise) and isinstance(s.exc, ast.Call) and X.U(s.exc.func) in ("IndexError", "TokenError")]
                 if neg and rs:
                     out["negative_rejected"] = True
+                    # the guard itself must be total: min()/max() of an empty id list raises ValueError, which no handler translates
+                    for c in ast.walk(n.test):
+                        if isinstance(c, ast.Call) and X.U(c.func) in ("min", "max", "np.min", "np.max", "numpy.min", "numpy.max", "np.amin", "np.amax") \
+                                and not any(k.arg in ("default", "initial") for k in c.keywords) and len(c.args) == 1:
+                            caught = any("ValueError" in (X.U(h.type) if h.type is not None else "ValueError") or X.U(h.type) in ("Exception", "BaseException") for h in t.handlers)
+                            if not caught:
+                                out.setdefault("partial_guard", []).append(X.U(c))
     # also accepted: a check before the try raising TokenError directly
     for n in fn.node.body:
         if isinstance(n, ast.If) and any(isinstance(s, ast.Raise) and isinstance(s.exc, ast.Call) and X.U(s.exc.func) == "TokenError" for s in n.body):
@@ -242,6 +249,10 @@ def rule_W5(ctx: Ctx) -> None:
         ctx.judge(f, g["negative_rejected"], g,
                   "negative ids are rejected too: a Python list index guarded only by `except IndexError` is a one-sided bound (ids -4096..-1 would silently decode to real tokens)",
                   "decode([-1]) returns the last vocabulary token instead of raising TokenError")
+        if g.get("partial_guard"):
+            ctx.violation(f, {"guard_calls_partial_on_empty": g["partial_guard"]},
+                          "the negative-id guard is total on every id sequence, the empty one included (any(...) / a default= for min)",
+                          "decode([]) raises a bare ValueError (min of an empty sequence) instead of returning the empty list: encode/decode are no longer inverse on the empty sequence")
 
 
 def rule_W6(ctx: Ctx) -> None:
